@@ -41,13 +41,13 @@ type c11Action struct {
 }
 
 type c11Case struct {
-	Name    string      `json:"name"`
-	Ordered bool        `json:"ordered,omitempty"`
-	Grpc    bool        `json:"grpc,omitempty"` // drive the gRPC StreamingPull handler (services) instead of actions.MessageStreamer
+	Name    string `json:"name"`
+	Ordered bool   `json:"ordered,omitempty"`
+	Grpc    bool   `json:"grpc,omitempty"` // drive the gRPC StreamingPull handler (services) instead of actions.MessageStreamer
 	// the client acknowledges (unary Acknowledge) each of the first AckInSend messages while the server is
 	// still inside the Send that delivers it
-	AckInSend int `json:"ack_in_send,omitempty"`
-	Actions []c11Action `json:"actions"`
+	AckInSend int         `json:"ack_in_send,omitempty"`
+	Actions   []c11Action `json:"actions"`
 }
 
 type c11Replay struct {
